@@ -449,6 +449,9 @@ BEHAVIOURS = {
     "CNP": [op("cleanup", body=[op("ctx")]), op("cleanupnil"), draw(g("Bool"), "p")],
     "CSE": [op("cleanup", body=[op("errorf", text="first registered")]), op("cleanup", body=[op("skip")])],   # the skipping cleanup runs first; the other one must still run now
     "AL": [draw(g("Int8"), ""), draw(g("Bool"), "")],                           # unlabelled draws (draw bookkeeping)
+    # a Custom attempt that registers a failing cleanup and is then rejected: its failure is that attempt's, now -- it cannot wait for the test case's end
+    "CuCES": [draw(g("Custom", elem=g("Int8"), body=[draw(IntRange(0, 5), "a", "a"), op("cleanup", body=[iff("a", "le", 2, [op("errorf", text="cuces")])]),
+                                                     iff("a", "le", 2, [op("skip")])], fresh=True), "c")],
     # a cleanup fails fatally, and the cleanup that runs after it (registered before it) skips: the test case is falsified all the same
     "CFS": [op("cleanup", body=[op("skip")]), op("cleanup", body=[op("fatalf", site=2)]), draw(g("Bool"), "p")],
     # a fatal failure whose panic the property's own code swallows
@@ -472,7 +475,8 @@ def c11(tier, seed):
              ("CS", "XC", "P"), ("CS", "CS", "XC"), ("XC", "CS", "XC", "P"), ("CN", "P"), ("CNP", "P", "P"), ("CNP", "CN", "P"), ("P", "CN", "P", "P"),
              ("CS", "P", "XC"), ("CNP", "XC", "P"), ("CSE", "P"), ("CSE", "P", "P"), ("P", "CSE", "XC"), ("CSE", "CSE", "P"),
              ("GX", "P"), ("GX", "GX", "XC"), ("XC", "GX", "P"), ("GX", "S", "GX", "P"), ("GX", "XC", "AL"),
-             ("CFS", "P"), ("P", "CFS", "P"), ("S", "S", "CFS"), ("FR", "P"), ("P", "P", "FR"), ("CS", "FR", "P")]
+             ("CFS", "P"), ("P", "CFS", "P"), ("S", "S", "CFS"), ("FR", "P"), ("P", "P", "FR"), ("CS", "FR", "P"),
+             ("CuCES", "P"), ("P", "CuCES", "P"), ("CuCES", "CuCES", "P"), ("S", "CuCES", "XC")]
     out = []
     for i, sq in enumerate(list(seqs) + extra):
         cases = {str(j + 1): BEHAVIOURS[b] for j, b in enumerate(sq)}
@@ -498,6 +502,9 @@ def c09(tier, seed):
             "always": ({"body": [draw(g("Int"), "x"), op("skip")]}, None),
             "data": ({"body": [draw(g("Uint8"), "x", "x"), iff("x", "mod2", 0, [op("skip")])]}, None),
             "mostly": ({"body": [draw(IntRange(0, 99), "x", "x"), iff("x", "le", 94, [op("skip")])]}, None),
+            # the skip comes from a cleanup function, after the property function has returned normally: the test case does not count either
+            "cleanupskip": ({"body": [draw(g("Uint8"), "x", "x"), op("cleanup", body=[iff("x", "mod2", 0, [op("skip")])])]}, None),
+            "cleanupskip_always": ({"body": [draw(g("Uint8"), "x"), op("cleanup", body=[op("skip")])]}, None),
         }
         if N <= 10:
             alt = {str(i): [op("skip")] for i in range(1, 8 * N, 2)}
